@@ -243,7 +243,7 @@ func init() {
 	run.Register(&run.Check{
 		ID:    "C12",
 		Level: "exploration",
-		Rule: "cases: (1) the exhaustive list of single structural mutations - every field path of 25 base documents (one per kind x shape: Namespace, the nine workload expressions, NetworkPolicy, ANP, BANP, Service, Ingress, Route) x {drop, null, retype, empty, corner value (IPv6/garbage addresses, out-of-range numbers, unknown enum values, absent controller flag, 70 kB strings)}; (2) sampled multi-mutations (2-4 at once) of the same documents and of generated worlds, and single/double mutations of documents of the repository's own manifest directories; (3) byte-level mutations (truncation, bit flips, BOM, CRLF, tabs, deep nesting, duplicated documents, blank kind/metadata); every mutated input is run through list, list --exposure, diff (both sides), the eval engine with queries, and - on a slice - the binary; " +
+		Rule: "cases: (1) the exhaustive list of single structural mutations - every field path of 25 base documents (one per kind x shape: Namespace, the nine workload expressions, NetworkPolicy, ANP, BANP, Service, Ingress, Route) x {drop, null, retype, empty, corner value (IPv6/garbage addresses, out-of-range numbers, unknown enum values, absent controller flag, 70 kB strings)}; (2) sampled multi-mutations (2-4 at once) of the same documents and of generated worlds, and single/double mutations of documents of the repository's own manifest directories, next to valid documents using the tool's own synthetic names and admin policies with the API's other peer kinds (networks, nodes) under every kind of port entry; (3) byte-level mutations (truncation, bit flips, BOM, CRLF, tabs, deep nesting, duplicated documents, blank kind/metadata); every mutated input is run through list, list --exposure, diff (both sides), the eval engine with queries, and - on a slice - the binary; " +
 			"oracle: the Go runtime's own checks observed at the boundary: a recovered panic, a dead worker process, a watchdog expiry or a crashing binary refute the property; errors are fine; " +
 			"non-trivial = the mutated input was still parsed far enough to reach the analysis (some entry point returned a result or an error other than a pure scan failure) and differs from the base; distinct = (document, path, operation) / mutation hash",
 		Assumptions: []string{"the worker's recover() and the driver's journal see every crash (a dying worker is attributed to the journalled case)", "watchdog: 180 s per case"},
@@ -402,6 +402,27 @@ func runC12(c *run.Ctx) {
 				ds = append(ds, "workload named representative-pod")
 			}
 			r.Ev("inputs_using_the_tools_synthetic_names", 1)
+		}
+		if g.P(0.2) {
+			// valid (API-admissible) admin policies using peer kinds of the API that the tool may or may not support: egress towards
+			// address blocks (networks) or nodes, alone or next to a pods / namespaces peer, with every kind of port entry
+			peer := rng.Pick(g, []string{"networks: [\"10.0.0.0/8\"]", "networks: [\"0.0.0.0/0\", \"10.1.2.0/24\"]", "nodes: {matchLabels: {kubernetes.io/os: linux}}", "networks: [\"192.168.49.2/32\"]"})
+			if g.P(0.4) {
+				peer += "}\n    - {namespaces: {}"
+			}
+			ports := rng.Pick(g, []string{"", "    ports:\n    - namedPort: " + rng.Pick(g, world.PortNames) + "\n",
+				"    ports:\n    - portNumber: {protocol: TCP, port: 80}\n    - namedPort: " + rng.Pick(g, world.PortNames) + "\n",
+				"    ports:\n    - portNumber: {protocol: TCP, port: 8080}\n", "    ports:\n    - portRange: {protocol: UDP, start: 1, end: 100}\n"})
+			kind, name, pri := "AdminNetworkPolicy", "to-other-peer-kinds", fmt.Sprintf("  priority: %d\n", g.Range(0, 1000))
+			if g.P(0.25) {
+				kind, name, pri = "BaselineAdminNetworkPolicy", "default", ""
+			}
+			action := rng.Pick(g, []string{"Allow", "Deny"})
+			y := "apiVersion: policy.networking.k8s.io/v1alpha1\nkind: " + kind + "\nmetadata: {name: " + name + "}\nspec:\n" + pri + "  subject: {namespaces: {}}\n" +
+				"  egress:\n  - name: e\n    action: " + action + "\n    to:\n    - {" + peer + "}\n" + ports
+			docs = append(docs, world.Doc{Kind: kind, Name: name, YAML: y})
+			ds = append(ds, kind+" with a networks / nodes egress peer")
+			r.Ev("inputs_with_other_admin_peer_kinds", 1)
 		}
 		for n := g.Range(0, 3); n > 0; n-- {
 			di := g.Intn(len(docs))
